@@ -34,6 +34,7 @@ META = {
 def cases(draw):
     return {
         "prog": draw(G.programs(max_stmts=6, early_completion=True)),
+        "limits": draw(st.sampled_from([{}, {}, {}, {"checkpoint": 300}, {"checkpoint": 120}])),
         "backend": draw(G.backend_cfgs()),
         "plan": {"crashes": draw(G.crash_plans(max_crashes=4, max_inv=6, max_n=14))},
         "sched": draw(G.schedules()),
@@ -55,4 +56,24 @@ def classes(run, case):
     return out
 
 
-install(globals(), props=("C11",), cases=cases, nontrivial=nontrivial, classes=classes)
+def _sweep_stage(ctx):
+    """One long preemption at every executed source line of state.py (hand-over, merge of responses, release of waiters)."""
+    from .. import wfcheck as WC
+    from .c03 import _S
+
+    bases = [
+        ("wait; step", [{"op": "wait", "secs": 1}, _S(1)], 1),
+        ("callback{step}; invoke", [{"op": "callback", "between": [_S(2)]}, {"op": "invoke", "fn": "f", "payload": {"a": 1}, "tenant": "t"}], 1),
+        ("parallel{wait(1)+step | slow step}", [{"op": "parallel", "branches": [[_S(1), {"op": "wait", "secs": 1}, _S(3)], [_S(2, sleep=2.5)]],
+                                                   "cfg": {"completion": {"min": None, "tol": 2, "pct": None}}}], None),
+        ("wait_for_callback; wfcond", [{"op": "wfcb"}, {"op": "wfcond", "init": 0, "decisions": [["continue", 1], ["stop"]], "trans": "count"}], 2),
+    ]
+    for i, (label, body, page) in enumerate(bases):
+        if ctx.nshards > 1 and i % ctx.nshards != ctx.shard % ctx.nshards:
+            continue
+        base = {"prog": {"body": body}, "backend": {"response": "delta", "page_size": page, "state_page": 1}, "plan": {"crashes": [], "external": []}, "line": ["state"]}
+        WC.line_preempt_sweep(ctx, base, PROPS, nontrivial=nontrivial, classes=lambda r, c: ["one-long-preemption-at-a-line"],
+                              limit=ctx.budget.get("sweep_limit", 600), label="one long preemption per line of state.py: " + label)
+
+
+install(globals(), props=("C11",), cases=cases, nontrivial=nontrivial, classes=classes, stages=(_sweep_stage,))
